@@ -11,19 +11,41 @@ pub broadcast proof fn axiom_ro_mix_len(block: Seq<u8>, n: nat, r: nat)
 }
 pub use scrypt_axioms::axiom_ro_mix_len;
 
+/// byte offset of block k: k * 128 * r.  Opaque, so that the loop proofs see only the linear facts of lemma_boff
+/// (non-linear arithmetic in the main queries made them seed-sensitive).
+#[verifier::opaque]
+pub open spec fn boff(k: int, r: int) -> int { k * 128 * r }
+pub proof fn lemma_boff(k: int, r: int)
+    requires k >= 0, r >= 1
+    ensures boff(0, r) == 0, boff(k + 1, r) == boff(k, r) + 128 * r, boff(k, r) >= 0, boff(k, r) == k * 128 * r,
+            k * 128 >= 0, k * 128 <= boff(k, r),
+{
+    reveal(boff);
+    assert(0 * 128 * r == 0) by (nonlinear_arith);
+    assert((k + 1) * 128 * r == k * 128 * r + 128 * r) by (nonlinear_arith);
+    assert(k * 128 * r >= 0) by (nonlinear_arith) requires k >= 0, r >= 1;
+    assert(k * 128 <= k * 128 * r) by (nonlinear_arith) requires k >= 0, r >= 1;
+}
+pub proof fn lemma_boff_mono(j: int, k: int, r: int)
+    requires 0 <= j <= k, r >= 1
+    ensures boff(j, r) <= boff(k, r)
+{
+    reveal(boff);
+    assert(j * 128 * r <= k * 128 * r) by (nonlinear_arith) requires 0 <= j <= k, r >= 1;
+}
 /// B with each of its first `k` 128*r-byte blocks replaced by ROMix of it (RFC 7914 section 6, step 2)
 pub open spec fn mix_blocks(b: Seq<u8>, n: nat, r: nat, k: nat) -> Seq<u8>
     decreases k
 {
     if k == 0 { b } else {
         let prev = mix_blocks(b, n, r, (k - 1) as nat);
-        let lo = (k - 1) * 128 * r;
-        prev.subrange(0, lo as int) + spec_ro_mix(b.subrange(lo as int, lo + 128 * r), n, r) + prev.subrange(lo + 128 * r, prev.len() as int)
+        let lo = boff(k - 1, r as int);
+        prev.subrange(0, lo) + spec_ro_mix(b.subrange(lo, lo + 128 * r), n, r) + prev.subrange(lo + 128 * r, prev.len() as int)
     }
 }
 /// scrypt(P, S, N, r, p, dkLen) = PBKDF2(P, ROMix-ed PBKDF2(P, S, 1, p*128*r), 1, dkLen)   (RFC 7914 section 6)
 pub open spec fn spec_scrypt(pw: Seq<u8>, salt: Seq<u8>, n: nat, r: nat, p: nat, dk_len: nat) -> Seq<u8> {
-    let b = spec_pbkdf2(pw, salt, 1, p * 128 * r);
+    let b = spec_pbkdf2(pw, salt, 1, boff(p as int, r as int) as nat);
     spec_pbkdf2(pw, mix_blocks(b, n, r, p), 1, dk_len)
 }
 /// `n` is a power of two: what `assert!(n & (n - 1) == 0)` checks
@@ -35,7 +57,7 @@ pub open spec fn scrypt_params_ok(n: usize, r: usize, p: usize, dk_len: usize) -
     && r * p < 0x4000_0000 && r <= usize::MAX / 128 / p && r <= usize::MAX / 256 && n <= usize::MAX / 128 / r
     && p * 128 * r <= 0xffff_ffff * 32
 }
-pub open spec fn blk(s: Seq<u8>, k: int, r: int) -> Seq<u8> { s.subrange(k * 128 * r, k * 128 * r + 128 * r) }
+pub open spec fn blk(s: Seq<u8>, k: int, r: int) -> Seq<u8> { s.subrange(boff(k, r), boff(k, r) + 128 * r) }
 pub proof fn lemma_kestrel_scrypt_params()
     ensures scrypt_params_ok(32768, 8, 1, 32)
 {
